@@ -50,4 +50,3 @@ Proof.
   destruct (d_eval d x') as [p'|]; [|reflexivity].
   cbn [snd r_hast r_dens r_u r_ap]. intros H. rewrite <- (H hv p' eq_refl eq_refl). reflexivity.
 Qed.
-Print Assumptions step_enclosed.
